@@ -22,6 +22,8 @@ structure CompleteRN (g : Grammar) (t : Table) : Prop where
   /-- a symbol occurring in a right-hand side is not the left-hand side of an augmented production -/
   rhs_not_aug : ∀ (p q : Nat) (pr qr : Prod), g.prods[p]? = some pr → g.prods[q]? = some qr → qr.lhs ∈ pr.rhs →
     g.isAug q = false
+  /-- STOP is a lookahead only -/
+  noShiftStop : ∀ s s', Action.shift s' ∉ t.cell s 0
 
 theorem filter_isShift_two {l : List Action} {s1 s2 : Nat} (h1 : Action.shift s1 ∈ l) (h2 : Action.shift s2 ∈ l)
     (hlen : (l.filter isShift).length ≤ 1) : s1 = s2 := by
@@ -39,7 +41,7 @@ theorem Cert.completeRN_sound (g : Grammar) (t : Table) (h : Cert.completeRN g t
     CompleteRN g t ∧ GWF g := by
   unfold Cert.completeRN at h
   simp only [Bool.and_eq_true] at h
-  obtain ⟨⟨⟨⟨⟨⟨hF, hC⟩, hT⟩, hR⟩, hG⟩, hD⟩, hL⟩ := h
+  obtain ⟨⟨⟨⟨⟨⟨⟨hF, hC⟩, hT⟩, hR⟩, hG⟩, hD⟩, hL⟩, hNS⟩ := h
   unfold Cert.grammarOk at hG
   simp only [Bool.and_eq_true] at hG
   obtain ⟨⟨⟨hG1, hG2⟩, hG3⟩, hG4⟩ := hG
@@ -75,7 +77,7 @@ theorem Cert.completeRN_sound (g : Grammar) (t : Table) (h : Cert.completeRN g t
       rcases this with h0 | h0
       · exact h0
       · exact absurd hlhs h0
-  refine ⟨⟨?_, ?_, ?_, ?_, ?_, ?_, ?_⟩, gwf⟩
+  refine ⟨⟨?_, ?_, ?_, ?_, ?_, ?_, ?_, ?_⟩, gwf⟩
   · -- closure
     intro s p d a pr B ⟨st, hst, it, hit, hp, hd, ha⟩ hpr hB hBnt q qr hq hlhs b hf
     have := forStates_spec hC hst
@@ -182,6 +184,13 @@ theorem Cert.completeRN_sound (g : Grammar) (t : Table) (h : Cert.completeRN g t
         have := hL pr hm
         have hc : pr.rhs.contains x = true := List.contains_iff_mem.mpr (by rw [← heq]; exact hmem)
         rw [this] at hc; simp at hc
+  · -- noShiftStop
+    intro s s' hm
+    obtain ⟨st, hst, hm'⟩ := mem_cell hm
+    have := forStates_spec hNS hst
+    rw [List.all_eq_true] at this
+    have := this _ hm'
+    simp at this
 
 /-- transitions of a certified table are functions -/
 theorem CompleteRN.trans_det {g : Grammar} {t : Table} (hc : CompleteRN g t) {s X s1 s2 : Nat}
